@@ -126,7 +126,7 @@ def loops(chk, P):
                 names = sorted(set(e["fn"].split("::")[-1] for _, _, e in uses))
                 chk.judge(bool(names) and all(x in SELF_GUARDING for x in names), "GUARD", inst + ":delegates-to-self-guarding", site,
                           "loop has no isConstraintDisabled test and calls %s; only %s return at once for a disabled constraint" % (names, SELF_GUARDING))
-    chk.judge(n >= 30, "GUARD", "loops-found>=30", "", "constraint loops found in SimbodyMatterSubsystemRep: %d" % n)
+    chk.shape(n >= 30, "GUARD", "loops-found>=30", "", "constraint loops found in SimbodyMatterSubsystemRep: %d" % n)
 
 
 _R = "Simbody/src/SimbodyMatterSubsystemRep.cpp"
